@@ -313,3 +313,65 @@ def write_contract(region):
                  "lock_released": "not self.mbx_lock.g_held"},
         raises=[], modifies=None,
         canaries={"nothing_was_sent": "len(self.g_dl) == 0"})
+
+
+# ------------------------------------------------------------------ mbx_recv
+# The receive mailbox is the memory of sync manager 1: [mbx_in_off,
+# mbx_in_off + mbx_in_sz).  Its status register (0x80D) shows bit 3 while a mail
+# is waiting; the mailbox is handed back to the terminal when its LAST byte has
+# been read.  A mail is: length (2), address (2), channel/priority (1),
+# type | counter << 4 (1), then `length` bytes of service data.
+class MbxInBus(Contract_):
+    inline = False
+    qualname = "ebpfcat.ethercat:EtherCat.roundtrip"
+    loops = {}
+
+    def apply(self, ex, args, kwargs, frame, node):
+        import z3
+        from vc.pyvc import ops
+        from vc.pyvc.values import lift_int
+        ec, cmd, pos, offset = args[:4]
+        rest = tuple(args[4:])
+        t = ex.inputs["self"]
+        if cmd is ECCmd.FPRD and rest == ("B",) and offset == 0x80D:
+            return (fresh(ex, T.Range(0, 255), "sm1_status"),)
+        if cmd is ECCmd.FPRD and rest == ("HHBB",) and "data" in kwargs:
+            n = kwargs["data"]
+            ex.check(f"{ex.target_short}.reads_the_whole_receive_mailbox[from its first to its last byte]",
+                     z3.And(lift_int(offset) == lift_int(t.fields["mbx_in_off"]),
+                            6 + lift_int(n) == lift_int(t.fields["mbx_in_sz"])),
+                     "the read starts at mbx_in_off and covers mbx_in_sz bytes: the terminal gets the mailbox back "
+                     "only when its last byte was read, and a mail may fill the whole mailbox")
+            dlen = fresh(ex, T.Range(0, 65535), "mail_length")
+            ex.assume(dlen.t <= lift_int(t.fields["mbx_in_sz"]) - 6)       # a mail fits its mailbox
+            addr = fresh(ex, T.Range(0, 65535), "mail_address")
+            prio = fresh(ex, T.Range(0, 255), "mail_channel")
+            ty = fresh(ex, T.Range(0, 255), "mail_type")
+            ex.assume(z3.And(ty.t % 16 >= 0, z3.Or(*[ty.t % 16 == m.value for m in MBXType])))
+            payload = fresh(ex, T.Bytes, "mailbox_bytes")
+            ex.assume(ops.b_len(payload.t) == lift_int(n))
+            ex.ghost["mail"] = (dlen, ty, payload)
+            return (dlen, addr, prio, ty, payload)
+        raise OutOfReach(f"bus access {cmd} {offset} {rest} outside the receive-mailbox contract")
+
+
+def the_mail():
+    return None
+
+
+@lib.model(the_mail)
+def _m_the_mail(ex, args, kw):
+    return ex.ghost["mail"]
+
+
+def mbx_recv_contract():
+    return Contract(
+        Terminal.mbx_recv,
+        params=dict(self=T.Obj(Terminal, ec=T.Obj(EtherCat), position=T.Range(0, 65535),
+                               mbx_in_off=T.Range(0x1000, 0xffff), mbx_in_sz=T.Range(16, 1486),
+                               mbx_out_off=T.Range(0x1000, 0xffff), mbx_out_sz=T.Range(16, 1486))),
+        loops={1: Loop(invariant={}, modifies={"status": T.Int})},
+        ensures={"returns_the_type_and_exactly_the_service_data_of_the_mail":
+                 "result[0].value == the_mail()[1] % 16 and result[1] == the_mail()[2][:the_mail()[0]]"},
+        modifies=None,
+        options={"inline": {"ebpfcat.ethercat:Terminal.read"}})
